@@ -234,3 +234,22 @@ PLAN["C13"] = {
     ],
     "scope_note": "Ecube loop-free methods: complete over 32 variables. Soes: bounded (<= 4 terms, n <= 4). Ecube::all exhaustive n <= 5.",
 }
+
+
+PLAN["C06"] = {
+    "level": "proof",
+    "technique": "Kani contract triples on the real top_decomposition / is_pos_unate / is_neg_unate of Lut and LutN per size (symbolic variable for n <= 8, one harness per variable above), against the property's decision list evaluated on cofactor tables built by an independent word oracle that is itself tied to the real cofactors()",
+    "level_text": "For every size LutN 1..12 and Lut 1..12, every well-formed table and every variable v < n (both the in-word and the cross-word path), the returned class equals the property's decision list (Independent iff c0=c1; else Identity/Negation; else And/Or/Le/Lt; else Xor iff c0 = not c1; else None) and the unateness predicates equal c0<=c1 / c1<=c0 pointwise; fully unwound, complete per size.",
+    "level_note": "Trusted: Kani/CBMC, rustc. decomposition.rs is outside Verus's subset (closure parameters, `ret &= bool`), so there is no unbounded proof: complete per size only. The cofactor oracle is tied to the real cofactors() per size (and through C03 to the Verus kernel contracts).",
+    "kani_units": ["spec_ops.rs", "c06_decomposition.rs"],
+    "kani_filters": {"quick": ["c06q_"], "thorough": ["c06t_"]},
+    "kani_scope": {r"_s_": "complete(LutN, fixed N: all tables; variable symbolic for N <= 8, fixed per harness above)", r"_d_": "complete(Lut, fixed n: all tables; variable symbolic for n <= 8, fixed per harness above)"},
+    "harness_timeout": {"quick": 900, "thorough": 3600},
+    "functions": ["decomposition::input_property_helper", "decomposition::input_independent/and/or/nand/nor/xor/pos_unate/neg_unate", "decomposition::top_decomposition",
+                  "Lut::/StaticLut::{top_decomposition, is_pos_unate, is_neg_unate, cofactors}"],
+    "assumptions": [
+        "sizes LutN 1..12 and Lut 1..12 (the property's range), one harness per size (and per variable for n >= 9)",
+        "derived PartialEq on DecompositionType is structural (trusted)",
+    ],
+    "scope_note": "Kani: complete per size 1..12 for both types.",
+}
